@@ -133,7 +133,13 @@ def _c17_tags(toks, impl):
 
 def _c13_tags(toks, impl):
     cont = "bulk-constructor" if toks[2] in ("kmersb", "kmersa") else toks[3].split(".")[0]
-    return ["ktype=" + toks[1], "req=" + toks[2], "container=" + cont] + (["answer=panic"] if impl == "panic" else [])
+    t = ["ktype=" + toks[1], "req=" + toks[2], "container=" + cont] + (["answer=panic"] if impl == "panic" else [])
+    if toks[2] in ("iter", "iterexts") and impl != "panic":
+        # how many items the iterator delivered (a request type exercised only on sequences shorter than K would show here)
+        body = impl.split(" it=")[0]
+        n = 0 if body == "-" else body.count(",") + 1
+        t.append("%s-items=%s" % (toks[2], "0" if n == 0 else "1" if n == 1 else "2-9" if n < 10 else "10-49" if n < 50 else "50+"))
+    return t
 
 
 def _c12_tags(toks, impl):
@@ -165,6 +171,8 @@ def _c05_tags(toks, impl):
 def _reads_shrink(idx):
     def f(toks):
         out = []
+        if len(toks) <= idx or ":" not in toks[idx]:
+            return out
         reads = toks[idx].split(",")
         for i in range(len(reads)):
             if len(reads) > 1:
@@ -226,7 +234,7 @@ _C01_RULE = ("one request in 500 (thorough: 300) is `longpath K seed len strande
              "read-set generator (alphabet 1-4, chunk reuse, s++rc(s), hairpins, tandem repeats, homopolymers, tight cycles, rc/duplicate/SNP/tip "
              "copies) with thresholds 1-3, pruned with remove_censored_exts when the threshold rejects k-mers (otherwise half of the time); 5% with "
              "one extension bit flipped (non-reciprocal: panic branch compared with the model only), 5% with one k-mer dropped unpruned "
-             "(dangling extensions); entry points from-hash / from-slice / no-exts; K in {4,5,6,8,12,16,31,32,40,48,64} with 60% K<=8 (thorough: all 17 "
+             "(dangling extensions); entry points from-hash / from-slice / no-exts; K in {4,5,6,8,12,16,31,32,40,41,48,64} with 60% K<=8 (thorough: all 17 "
              "types); stranded 1/3; join always|payload-equality (colour = label set); reduce saturating-sum|max|non-commutative mix. The "
              "hash map's index order is read back from the implementation and handed to the model. Non-trivial = at least two nodes, one "
              "with >= 2 k-mers.")
@@ -338,7 +346,7 @@ PROPS = {
         "nontrivial": _c07_nontrivial, "tags": _c07_tags, "shrink": _c07_shrink,
         "rule": "one request in ten is `sscan k p rc perm read`: the deprecated wrapper simple_scan (an observation point of C07) with a permutation score, judged on tiling, lengths and bucket = canonical rank of a minimal p-mer lying in every k-mer of the interval. The others: requests `scan k p seq score container` generated from one xorshift state (alphabet 1-4; uniform, tandem-repeat, "
                 "homopolymer, s++rc(s) and chunk-pasted sequences; k = p..p+12 incl. k = p; scores: random permutation table, tables that mask p-mers with usize::MAX (some, all, all but one) next to usize::MAX-1 and small values, "
-                "rank mod 3, random 0..3, rc-symmetric, linear-hash mod {1,2,3,5,17,1000,1000003}, constant; containers DnaSlice, "
+                "rank mod 3, random 0..3, rc-symmetric, linear-hash mod {1,2,3,5,17,1000,1000003}, constant; one request in 12 has a window of k - p in {61..66, 71} p-mers (p in {4,5,8}) on a sequence of k + 300..900 bases; containers DnaSlice, "
                 "DnaString, Lmer3; 2.5% sequences shorter than k). Non-trivial = the real scan returned at least two intervals; "
                 "distinct = distinct request lines.",
         "trusted_base": ["modelled, not verified: `Vmer::get_kmer`/`Kmer::extend_right` deliver the p-mer at a position (the model reads "
@@ -353,7 +361,7 @@ PROPS = {
         "nontrivial": _c08_nontrivial, "tags": _c08_tags, "shrink": _c08_shrink,
         "rule": "requests `msp k p rc perm container reads`: 1-5 reads per set (random, tandem, homopolymer, palindromic, chunk-pasted; a third "
                 "of the later reads are reverse complements / shifted windows / copies of earlier ones so that the same k-mer occurs in several "
-                "reads, positions and strands), p in {2,3,4} (thorough: ..6) and, one request in 15, p = 8 or 10 (thorough also 12) with the default permutation (its 4^p-entry identity table), k = p+1..p+12, default and random permutations, rc on/off, "
+                "reads, positions and strands), p in {2,3,4} (thorough: ..6) and, one request in 15, p = 8 or 10 (thorough also 12) with the default permutation (its 4^p-entry identity table), k = p+1..p+12 and, one request in 20, k - p in {61..66, 71} on growable containers with reads of k + 80..300 bases, default and random permutations, rc on/off, "
                 "containers DnaBytes, DnaString, Lmer1/2/3 (k capped so that 2k-p fits, with a 1/30 stream violating the capacity "
                 "assertion). Non-trivial = at least two reads and some read split into >= 2 pieces.",
         "trusted_base": ["modelled, not verified: Vmer::from_slice / get of each container reproduce the bases written (that is C13/C14/C17)"],
@@ -368,7 +376,7 @@ PROPS = {
         "partial": [],
         "n_quick": 40000, "n_thorough": 4000000,
         "nontrivial": lambda toks, impl: impl != "panic", "tags": _c10_tags,
-        "rule": "requests `<type> <op> <args>` over all 19 shipped k-mer types plus three `VarIntKmer` instances that are no alias (`<u8,K4>`, the only one that fills its storage, `<u16,K4>`, `<u128,K31>`) and 18 operations (get, set, setslice with garbage below the "
+        "rule": "requests `<type> <op> <args>` over all 19 shipped k-mer types plus six `VarIntKmer` instances that are no alias (`<u8,K4>`, the only one that fills its storage, `<u16,K4>`, `<u128,K31>`, and `<u128,K33|K41|K63>` with sizes defined in the harness - `KmerSize` is a public trait) and 18 operations (get, set, setslice with garbage below the "
                 "run, extl, extr, rc, tou64, fromu64, ham, at, gc, tostr, frombytes, fromascii with non-ACGT noise, minrc(+flip,+palindrome), "
                 "cmp, kmers_from_bytes/ascii); k-mers drawn uniformly from all 4^K values for K<=8 and from a biased family (all-A, all-T, "
                 "alternating, one-hot lane, s++rc(s), uniform) otherwise; 1/12 too-short inputs for the constructors. k-mers travel as raw "
@@ -383,10 +391,10 @@ PROPS = {
         "partial": [],
         "n_quick": 6000, "n_thorough": 400000,
         "nontrivial": lambda toks, impl: impl != "panic" and toks[4] != "-" and toks[4].count(",") >= 2, "tags": _c11_tags,
-        "rule": "requests `<type> hist <init> <ops> <other>`: a k-mer of one of the 22 types of the regenerated table (19 shipped + VarIntKmer<u8,K4>, <u16,K4>, <u128,K31>) built by from_bytes / from_u64 / from_ascii, then "
+        "rule": "requests `<type> hist <init> <ops> <other>`: a k-mer of one of the 25 types of the regenerated table (19 shipped + VarIntKmer<u8,K4>, <u16,K4>, <u128,K31> + the harness-defined sizes K33, K41, K63 on u128) built by from_bytes / from_u64 / from_ascii, then "
                 "0-40 operations drawn from extend_left, extend_right, extend, rc, set_mut, set_slice_mut (random garbage below the run), "
                 "min_rc; the answer lists the raw storage word and the bases after every step, then ==, hash equality and cmp against the "
-                "from_bytes route to the same string and against another k-mer, and the binary-search position in the sorted, "
+                "from_bytes route to the same string and against another k-mer (random, or - a fifth of the time - the final string with its first and last m bases exchanged, m = K-32 for wide k-mers, K/2, 1, 8, 16; `hashother` must equal string equality), and the binary-search position in the sorted, "
                 "de-duplicated family of up to 64 single-substitution neighbours. Non-trivial = at least 3 operations.",
         "trusted_base": ["#[derive(PartialEq, Eq, Ord, Hash)] on the k-mer structs are the structural functions of the storage integer "
                          "(PhantomData contributes nothing); slice::sort/dedup/binary_search are correct for a total order"],
@@ -404,7 +412,7 @@ PROPS = {
                 "clear, blank, from_bytes, from_acgt_bytes, from_dna_string (10% non-ACGT characters); after every operation the raw "
                 "storage blocks and length are observed (serde), at the end all renderings, reverse, rc, and ==/hash/cmp against the "
                 "from_bytes route to the same bases and against `other` (random, a proper prefix, an extension by A's or random bases, "
-                "same-length for ndiffs); one history in 25 starts from a string of 255..4100 bases (both sides of 256, 1024, 2048); `pset <seqs>`: PackedDnaStringSet add/get. Non-trivial = at least 3 operations.",
+                "same-length for ndiffs); the iterator is observed through its adaptors on a fresh iterator, after n/3 steps (`count`, `last`) and after exhaustion (`next`, `last`, `count`, `nth(0)`, `skip(n).last()`, `skip(n+1).next()` find nothing); one history in 25 starts from a string of 255..4100 bases (both sides of 256, 1024, 2048); `pset <seqs>`: PackedDnaStringSet add/get. Non-trivial = at least 3 operations.",
         "trusted_base": ["#[derive(PartialEq, Eq, Ord, Hash)] on DnaString are the structural functions of (storage: Vec<u64>, len); "
                          "Vec<u64> order is lexicographic with a proper prefix first"],
         "assumptions": ["set_mut index < len, bases < 4, push_bytes within its bytes (guard theorem covers the other side), "
@@ -456,7 +464,7 @@ PROPS = {
         "rule": "requests `<ktype> getkmer|iter|iterexts|term <container> <seq> [arg]` over 12 k-mer types (K = 2..64, all five storage widths) and "
                 "containers DnaString, forward and reverse-complemented DnaStringSlice at random offsets inside a longer string, Lmer of "
                 "1,2,3,4,6 words (25% at max_len), DnaBytes, DnaSlice; sequence lengths: < K and = K (1/6), block boundaries 31..300 (1/6), "
-                "K..K+80; one request in ten is a bulk constructor `kmersb` / `kmersa` (packed bases; text in either case with other characters); every k-mer answer carries the raw storage word. Non-trivial = the answer contains at least one k-mer.",
+                "K..K+80; the plain `iter` request is drawn on sequences of every length (until round 8 of the seeded changes it was only the fall-back for sequences shorter than K; the evidence now counts the items each iterator request delivered), every iterator is also observed after n/3 steps and after exhaustion; one request in ten is a bulk constructor `kmersb` / `kmersa` (packed bases; text in either case with other characters); every k-mer answer carries the raw storage word. Non-trivial = the answer contains at least one k-mer.",
         "trusted_base": [],
         "assumptions": ["positions with pos + K <= len (outside: asserted by the crate)"],
     },
@@ -504,8 +512,8 @@ PROPS = {
         "rule": "requests `filter K stranded report_all summarizer memory bytes_per_unit size_of_pair probes reads`: read sets from the structured "
                 "generator (alphabet 1-4; uniform, chunk-pasted with reuse, s++rc(s), hairpins, tandem repeats, homopolymers, tight cycles, "
                 "reads < K, rc/duplicate/SNP/tip copies; random boundary extensions on a quarter of the reads; labels 0..2), K in "
-                "{4,5,6,8,12,16,31,32,40,48,64} (thorough: all 17 types with K>=4), CountFilter(n) / CountFilterSet(n) for n in {0,1,2,3,4,70000}, "
-                "both strandedness and report_all values; the bytes-per-unit hook is set so that the pass count sweeps 1, 2, 2-8, 8-64, "
+                "{4,5,6,8,12,16,31,32,40,41,48,64} (thorough: all 17 types with K>=4), CountFilter(n) / CountFilterSet(n) for n in {0,1,2,3,4,70000}, "
+                "both strandedness and report_all values; one request in 60 is `deep K base nobs stranded summ label` - a single k-mer observed around 2^16 or just above 2^20 times, judged in closed form against the statement (implementation against the statement, not the model); the bytes-per-unit hook is set so that the pass count sweeps 1, 2, 2-8, 8-64, "
                 "64-256 and 256; one request in 150 is a single read with a run of 65600-70000 equal bases, up to two other bases before it and up to three after it, under thresholds 1, 2, 65535, 65536, 70000 (count saturation; the run's first and last observations carry flanks no other does). The answer carries the number of passes really "
                 "made (hook counter), the table sorted by key, all_kmers verbatim and lookups of present/absent k-mers. Non-trivial = at "
                 "least two table entries.",
@@ -546,7 +554,7 @@ PROPS = {
                 "finish) from the structured read-set generator: all edge lists, find_link for terminal / internal / random k-mers in both "
                 "directions, get_valid_exts with all-valid or a random validity set, max_path with random integer scores 0..5 and solid "
                 "flags, max_path_beam with beam widths 1, 2, 5 and the same scores, sequence_of_path of the best paths and of a random walk along reported edges; `prune K stranded sharded table all`: "
-                "both pruning functions with a random censored quarter; `pipe K stranded thr reads`: the pipeline end to end with overlap, "
+                "both pruning functions with a random censored quarter; `pipe K stranded thr reads` (thr = `<n>`: CountFilter, `s<n>`: CountFilterSet with all reads under one label, a third of the time): the pipeline end to end with overlap, "
                 "symmetry and adjacency-set = (K+1)-mers-of-the-reads checked; one request in 150 is a `pipe` on a single read with a run of 65 600-70 000 equal bases and other bases around it (a k-mer observed more often than its u16 count tells; late flanks). Non-trivial = graph with >= 2 nodes, or a prune/pipe request.",
         "trusted_base": ["BoomHashMap::get is exact on distinct keys (node ends of a valid graph are distinct)", "scores are small integers, exactly representable as f32"],
         "assumptions": ["pruning slices sorted by key (what filter_kmers + sort deliver)"],
@@ -560,7 +568,7 @@ PROPS = {
         "rule": "requests `recompress K gstranded stranded join reduce censor nodes` on graphs obtained from the real pipeline at three compression "
                 "levels (one k-mer per node; two separately compressed halves combined with BaseGraph::combine; fully compressed), censor "
                 "sets none / the real tip finder's output / a random fifth of the nodes, one list in four with repeated ids (any position) or ids beyond the graph, as concatenated verdicts of several cleaners give; stranded 1/3; join always|payload equality; reduce "
-                "sum|max|mix. The debug_assert!(is_compressed) inside compress_graph is live in the checked harness profile. "
+                "sum|max|mix; one request in 12 is a stranded read `L ++ P ++ R` (P its own reverse complement) compressed in three pieces around P and combined. The debug_assert!(is_compressed) inside compress_graph is live in the checked harness profile. "
                 "Non-trivial = at least three input nodes and a non-empty result.",
         "trusted_base": ["BoomHashMap::get exact on distinct node ends; finish() = finish_serial() (C19)"],
         "assumptions": ["input graphs are valid (reachable from read sets); graph and compression strandedness agree"],
@@ -586,7 +594,7 @@ PROPS = {
         "nontrivial": lambda toks, impl: impl != "panic" and (toks[1] != "export" or toks[4].count(",") >= 1), "tags": _c20_tags,
         "shrink": _c20_shrink,
         "rule": "requests `export K stranded nodes rest`: GFA and JSON text of graphs from the pipeline (60%), hand-made empty / single-node / "
-                "link-free graphs (single and link-free nodes also on both sides of 256 bases and, one single node in twelve, of 8192 / 16384 bases, pipeline graphs with a 280-340-base read: `Debug` of a view stops printing bases there), pipeline graphs with dangling extension bits and removed nodes, with and without a `rest` object (keys with quotes, backslashes, control characters); to_gfa (file) must equal write_gfa, to_gfa_with_tags (file), to_dot (file) and `Debug` of every node are compared with the model; the JSON is additionally parsed with serde_json and its node and "
+                "link-free graphs (single and link-free nodes also on both sides of 256 bases and, one single node in twelve, of 8192 / 16384 bases, pipeline graphs with a 280-340-base read: `Debug` of a view stops printing bases there), pipeline graphs with dangling extension bits and removed nodes, with and without a `rest` object (keys with quotes, backslashes, control characters); to_gfa (file) must equal write_gfa, write_gfa into a sink accepting 1, 7, 64 bytes per call must equal it too, to_gfa_with_tags (file), to_dot (file) and `Debug` of every node are compared with the model; the JSON is additionally parsed with serde_json and its node and "
                 "link counts compared with the graph; `persist kmer|dna|exts|lmer|graph …`: the text serde_json writes is compared with the model's (`Serde.*`; for graphs the `BaseGraph` text), and the round trip is observed with equality and query "
                 "comparison. Non-trivial = export of a graph with >= 2 nodes, or a persist request.",
         "trusted_base": ["serde / serde_json derive code (round trips are tested, not proved)", "Debug of DnaStringSlice (C15) renders the node sequence"],
@@ -614,7 +622,7 @@ PROPS = {
         "nontrivial": lambda toks, impl: impl != "panic" and toks[5] != "-" and toks[6].count(",") >= 1, "tags": _c06_tags, "shrink": _reads_shrink(6),
         "rule": "requests `rcsym K stranded thr mask reads`: the crate builds the k-mer table and the direct, sharded and re-compressed graphs for the "
                 "read set and for the read set with the masked reads reverse-complemented (random masks, each read with probability 1/2); K in "
-                "{4,5,6,8,12,16} (even and odd). Unstranded: keys, counts, extension sets of non-palindromic k-mers, partitions, payloads and "
+                "{4,5,6,8,12,16} and the harness-defined odd sizes 33, 41 on u128 (for odd K a third of the read sets gets a read through a k-mer `X m rc(X)`, equal to its reverse complement everywhere but in the middle base). Unstranded: keys, counts, extension sets of non-palindromic k-mers, partitions, payloads and "
                 "adjacencies must coincide and every key must be the minimum of k-mer and reverse complement; stranded: the table must be exactly "
                 "the forward k-mers of the reads with their counts. Non-trivial = a non-empty mask and at least two reads.",
         "trusted_base": ["as C01, C04, C05, C09"],
@@ -626,7 +634,7 @@ PROPS = {
         "partial": ["that boomphf's parallel builder meets the exact-lookup contract under every thread schedule is not provable in a model of this crate: explored by execution (1-16 threads, repeated runs, 10^5-node graphs)"],
         "n_quick": 1500, "n_thorough": 60000,
         "nontrivial": lambda toks, impl: impl.startswith("same=1") or ("same=1" in impl and toks[5].count(",") >= 1), "tags": _c19_tags,
-        "rule": "requests `finish K stranded threads nodes probes`: pipeline graphs (one in three with even K extended by hand-built nodes around a k-mer that is its own reverse complement - a longer node that starts or ends with it, neighbours whose extension leads to it - and probed at that k-mer and the new node ends on both sides) finished once with finish_serial() and five times with finish() "
+        "rule": "requests `finish K stranded threads nodes probes`: pipeline graphs (one in three with even K extended by hand-built nodes around a k-mer that is its own reverse complement - a longer node that starts or ends with it, neighbours whose extension leads to it - and probed at that k-mer and the new node ends on both sides; one in three with K > 32 by two nodes whose first or last k-mers are twins `P M Q` / `Q M P`, |P| = |Q| = K - 32) finished once with finish_serial() and five times with finish() "
                 "inside a rayon pool of 1,2,3,4,8 or 16 threads; every edge list and link lookups for terminal, internal, reverse-complemented "
                 "and random k-mers are compared between the builders, across runs and with the model; `big K seed n threads reps`: graphs of "
                 "10^5 nodes (thorough: 3*10^5), parallel vs serial on every node side and 10^4 random k-mers (implementation against "
